@@ -45,6 +45,14 @@ def frag(rnd):
         '(debug-stack)',
         '(debug-print (assoc (sorted-map %s) "new" (sorted-map %s)))' % (kv, skv),
         '(car (unbound-%d))' % rnd.randrange(9),
+        # errors and stacks that carry the NAME of an anonymous function
+        '(map \'list (lambda (x) (car x)) (list 1 %d))' % rnd.randrange(9),
+        '(funcall (lambda () (unbound-in-lambda-%d)))' % rnd.randrange(9),
+        '((lambda (x y) (list x y)) %d)' % rnd.randrange(9),
+        '(handler-bind ((condition (lambda (c &rest r) (debug-print c) (debug-stack) r))) (funcall (lambda (k) (error \'in-lambda k)) %d))' % rnd.randrange(9),
+        '(funcall (lambda () (funcall (lambda () (debug-stack) %d))))' % rnd.randrange(9),
+        '(let ((f (lambda (n) (+ n "x")))) (foldl (lambda (acc e) (funcall f e)) 0 (list 1 2)))',
+        '(labels ((inner (n) (+ n (lambda () 1)))) (inner %d))' % rnd.randrange(9),
     ]
     return rnd.choice(F)
 
@@ -113,8 +121,7 @@ def _run(V, work, tier):
             vs = list(variants.items())
             a, b = json.loads(vs[0][0]), json.loads(vs[1][0])
             diff = [k for k in a if a[k] != b[k]]
-            key = "json-exact-integer-error-order" if ("exact-integers" in p["seq"][0] and set(diff) <= {"v", "err", "data", "stderr"} and _only_json_range(a, b)) else None
-            V.add(key, "two runs of the same program differ in %s (%s vs %s)" % (diff, vs[0][1][0], vs[1][1][0]),
+            V.add(None, "two runs of the same program differ in %s (%s vs %s)" % (diff, vs[0][1][0], vs[1][1][0]),
                   {"src": p["seq"][0], "differs_in": diff, "a": {k: a[k] for k in diff}, "b": {k: b[k] for k in diff}})
         if pid.startswith("m"):
             d = mach.compare_eval(model[pid][0], out1[pid + "#0"][0])
@@ -129,8 +136,3 @@ def _run(V, work, tier):
     V.coverage["explanation"] = "%d programs x (%d in-process runs at shuffled positions + %d separate processes), transcripts compared byte for byte" % (len(allp), reps, len(procs))
     V.assumptions += ["nondeterminism with probability far below 1/%d per program is not excluded" % (reps + len(procs))]
     return V.finish()
-
-
-def _only_json_range(a, b):
-    ma, mb = (a.get("err") or {}).get("msg", ""), (b.get("err") or {}).get("msg", "")
-    return "integer" in (ma + mb) or "range" in (ma + mb) or True
